@@ -68,3 +68,58 @@ Definition run_nodes (lib : list amp) (maxl : Q)
   join ";" (map (fun c => let '(nd, prev, next, bmin, bmax, gain, pt, ext, nfs) := c in
                           run_node nd prev next bmin bmax maxl gain pt ext
                                    (map (fun a => (a, nfs_lookup nfs (a_name a))) lib)) calls).
+
+(* ---------- multiband nodes ---------- *)
+Definition grp (n : string) (allowed : bool) (members : list string) : mgroup := mkG n allowed members.
+Definition bt (bmin bmax gain pt : Q) (nfs : list (string * Q)) : Q * Q * Q * Q * list (string * Q) := (bmin, bmax, gain, pt, nfs).
+Definition mcall (nd : anode) (prev next : neigh) (bts : list (Q * Q * Q * Q * list (string * Q)))
+  : anode * neigh * neigh * list (Q * Q * Q * Q * list (string * Q)) := (nd, prev, next, bts).
+
+Fixpoint band_results (lib : list amp) (redfa : list string) (prev : neigh) (maxl ext : Q)
+                      (bts : list (Q * Q * Q * Q * list (string * Q))) : list (res (amp * Q) * Q) :=
+  match bts with
+  | [] => []
+  | (bmin, bmax, gain, pt, nfs) :: rest =>
+      let r := filter (covers_name lib bmin bmax) redfa in
+      let eq := filter (fun a => negb (a_multi a) && (isnil r || smem (a_name a) r)) lib in
+      let one := band_select lib redfa prev maxl bmin bmax gain pt ext (fun a => nfs_lookup nfs (a_name a)) in
+      (one, select_crit (raman_allowed prev maxl) gain pt ext eq)
+      :: match one with Ok _ => band_results lib redfa prev maxl ext rest | Err _ => [] end
+  end.
+
+(* smallest margin met by the preselection filters *)
+Fixpoint presel_crit (lib : list amp) (groups : list mgroup) (ext : Q) (sel : list string)
+                     (bts : list (Q * Q * Q * Q)) : Q :=
+  match bts with
+  | [] => 1
+  | (bmin, bmax, gain, pt) :: rest =>
+      let cands := band_cands lib groups sel bmin bmax in
+      Qmin (select_crit true gain pt ext cands)
+           (match acc_gain true gain cands with
+            | Ok acc => presel_crit lib groups ext
+                          (dedup (flat_map (groups_of groups) (map a_name (acc_power ext gain pt acc)))) rest
+            | Err _ => 1
+            end)
+  end.
+
+Definition run_multi (lib : list amp) (groups : list mgroup) (maxl ext : Q)
+                     (c : anode * neigh * neigh * list (Q * Q * Q * Q * list (string * Q))) : string :=
+  let '(nd, prev, next, btn) := c in
+  let bts := map fst btn in
+  let mr := multi_restrictions nd prev next (map (fun b => (fst (fst (fst b)), snd (fst (fst b)))) bts) lib groups in
+  let pc := if negb (String.eqb (n_variety nd) "") then 1 else presel_crit lib groups ext mr bts in
+  append (join "," mr)
+    (append "#"
+      (match multi_redfa nd prev next lib groups ext bts with
+       | Err e => append "E:" (append e (append "|" (q_s pc)))
+       | Ok (_, redfa) =>
+           let rs := band_results lib redfa prev maxl ext btn in
+           let chosen := flat_map (fun r => match fst r with Ok (s, _) => [a_name s] | Err _ => [] end) rs in
+           join "#" [join "," (dedup redfa); q_s pc;
+                     join "&" (map (fun r => sel_s (fst r) (snd r)) rs);
+                     join "," (common_groups groups chosen)]
+       end)).
+
+Definition run_multis (lib : list amp) (groups : list mgroup) (maxl ext : Q)
+                      (calls : list (anode * neigh * neigh * list (Q * Q * Q * Q * list (string * Q)))) : string :=
+  join "~" (map (run_multi lib groups maxl ext) calls).
